@@ -222,6 +222,35 @@ pub fn c17(tier: &str, seed: u64) {
       }
     }
   }
+  // measurements that a text NORMALISATION would identify (byte-order mark, invisible characters,
+  // trimming, case, Unicode forms): each is its own measurement - the wrapper derives for it what
+  // the core derives, tags are pairwise different, and one share of each never yields a key
+  for base in [b"https://example.com/a".to_vec(), b"abc".to_vec(), vec![], { let mut v = g.blob(20); v.push(b'q'); v }] {
+    let fam = normalisation_family(&base);
+    let mut made: Vec<(Vec<u8>, Created, String)> = Vec::new();
+    for f in &fam {
+      if let Some(c) = checked_create(f, 2, "ep") {
+        let tag = json_field(&c.text, "tag").unwrap_or_default();
+        made.push((f.clone(), c, tag));
+      }
+      case(true);
+    }
+    for i in 0..made.len() {
+      for j in (i + 1)..made.len() {
+        if made[i].2 == made[j].2 {
+          fail("different_measurements_same_tag", &[("measurement_1", hex(&made[i].0)), ("measurement_2", hex(&made[j].0)), ("threshold", "2".into()), ("epoch", "ep".into()), ("tag", made[i].2.clone())]);
+        }
+      }
+      if i > 0 {
+        let ser = format!("{}\n{}", made[0].1.share_b64, made[i].1.share_b64);
+        let got = group_guarded(&ser, "ep").ok().flatten();
+        if got.is_some() {
+          fail("group_shares_key_below_threshold", &[("what", "one share each of two different measurements (threshold 2)".into()), ("measurement_1", hex(&made[0].0)), ("measurement_2", hex(&made[i].0)), ("serialized_shares", ser), ("returned", format!("{:?}", got))]);
+        }
+      }
+    }
+    stat("oracle.C17.normalisation_families");
+  }
   let n = if quick(tier) { 1500 } else { 15000 };
   for case_i in 0..n {
     let t: u32 = match case_i % 8 {
